@@ -49,7 +49,7 @@ while [ $i -lt "$JOBS" ]; do
       left=$(( END - $(date +%s) ))
       [ $left -le 2 ] && break
       ( cd "$WORK" && "$FBIN" corpus -artifact_prefix=artifacts/ -max_len=$MAXLEN -len_control=0 \
-          -seed=$(( (SEED % 2000000000) + 1 + i * 1000 + k )) -max_total_time=$left -timeout=25 -rss_limit_mb=3000 \
+          -seed=$(( (SEED % 2000000000) + 1 + i * 1000 + k )) -max_total_time=$left -timeout=90 -rss_limit_mb=4000 \
           -print_final_stats=1 >> "fuzz-$i.log" 2>&1 )
       k=$((k+1))
       [ $k -gt 50 ] && break
@@ -71,7 +71,7 @@ for a in "$WORK"/artifacts/crash-* "$WORK"/artifacts/timeout-* "$WORK"/artifacts
     */crash-*)
       "$BIN" confirm --prop "$ID" --stage "$STAGE" --raw "$a" --tier thorough; c=$?
       if [ $c -eq 1 ]; then RC=1; CONFIRMED=$((CONFIRMED+1)); fi;;
-    *) echo "INCONCLUSIVE property=$ID fuzz input $(basename "$a") exceeded the libFuzzer time/memory limit under ASan (not a violation)";;
+    *) echo "note: property=$ID fuzz input $(basename "$a") exceeded the libFuzzer per-input time/memory limit under ASan; not judged (not a violation)";;
   esac
 done
 printf '{"stage":"%s","status":"ran","engine":"libFuzzer (cargo-fuzz, ASan, %s processes on one corpus)","seconds":%s,"executions":%s,"coverage_edges":%s,"features":%s,"corpus_files":%s,"crash_inputs":%s,"confirmed_violations":%s}\n' \
